@@ -74,6 +74,8 @@ pub struct World {
     pub now_ns: u64,
     pub height: u64,
     pub tx_index: u32,
+    /// the current message runs outside a transaction (env.transaction = None)
+    pub notx: bool,
     pub contract: String,
     pub prefix: String,
     pub names: std::sync::Arc<Names>,
@@ -176,6 +178,7 @@ impl World {
             now_ns: 1_700_000_000u64 * 1_000_000_000,
             height: 100,
             tx_index: 0,
+            notx: false,
             contract,
             prefix: prefix.to_string(),
             names: std::sync::Arc::new(names),
@@ -197,7 +200,8 @@ impl World {
                 time: Timestamp::from_nanos(self.now_ns),
                 chain_id: "sim-1".into(),
             },
-            transaction: Some(TransactionInfo { index: self.tx_index }),
+            // (messages run by a governance proposal or a scheduler carry no transaction info)
+            transaction: if self.notx { None } else { Some(TransactionInfo { index: self.tx_index }) },
             contract: ContractInfo { address: Addr::unchecked(&self.contract) },
         }
     }
